@@ -30,6 +30,8 @@ type Config struct {
 	SiteMask  uint64  // yield site i is enabled iff bit (hash(i) % 64) is set; ^0 = all
 	MaxSteps  int64   // scheduler decisions cap
 	MaxSim    time.Duration
+	HotMod    int // >0: sites with id % HotMod == HotRem always pre-empt
+	HotRem    int
 	Horizon   time.Duration // idle for this long with nothing enabled => deadlock
 	LivelockSteps int64     // this many scheduler steps without the simulated clock advancing => livelock
 	NoProgressYields int64  // this many yield points passed without any progress event (bytes moved, log events, task start/end, clock) => livelock
@@ -634,19 +636,22 @@ func (s *Sim) yield(site int32) {
 		s.park(t, nil, time.Time{}, false)
 		return
 	}
-	if s.cfg.SiteMask&siteBit(site) == 0 {
+	// hot sites: a few sites per run at which every arriving task is pre-empted, so that several
+	// tasks pile up inside the same narrow window (between a check and the act that follows it)
+	hot := s.cfg.HotMod > 0 && int(site)%s.cfg.HotMod == s.cfg.HotRem
+	if !hot && s.cfg.SiteMask&siteBit(site) == 0 {
 		return
 	}
 	switch s.cfg.Policy {
 	case PolicyPCT:
 		s.pctCount++
-		if !s.pctPoints[s.pctCount] {
+		if !hot && !s.pctPoints[s.pctCount] {
 			return
 		}
 		s.nextPrio++
 		t.prio = 100 - s.nextPrio // below every initial priority, later points lower
 	default:
-		if s.cfg.PYield <= 0 || s.rng[StreamSched].Float() >= s.cfg.PYield {
+		if !hot && (s.cfg.PYield <= 0 || s.rng[StreamSched].Float() >= s.cfg.PYield) {
 			return
 		}
 	}
